@@ -133,12 +133,14 @@ func (e *Env) DeleteGlobal(symbol string) {
 		return
 	}
 
-	e.rwMutex.RLock()
+	e.rwMutex.Lock()
 	_, ok := e.values[symbol]
-	e.rwMutex.RUnlock()
+	if ok {
+		delete(e.values, symbol)
+	}
+	e.rwMutex.Unlock()
 
 	if ok {
-		e.Delete(symbol)
 		return
 	}
 
